@@ -76,12 +76,16 @@ pub struct Style {
     pub leading_blank: bool,
     pub final_newline: bool,
     pub indent: bool,
+    /// scale dimension: `gap.0` comment-only lines are inserted before every statement whose index is `gap.2` modulo `gap.1` (0 lines = none)
+    pub gap: (u32, u32, u32),
 }
+/// gap codes selectable through the secondary index (secondary = base + SECONDARY * code)
+pub const GAPS: [(u32, u32, u32); 7] = [(0, 1, 0), (256, 3, 0), (255, 3, 0), (300, 4, 1), (16, 1, 0), (1000, 5, 2), (257, 2, 1)];
 pub const PAYLOADS: [&str; 5] = ["; c", "; \" unbalanced quote", ";.end", ";; LD R0, X : ,", ";"];
 impl Style {
     pub fn plain() -> Style {
         Style { kw: Case::Upper, reg_upper: true, dir: Case::Lower, hex_upper: false, num: NumStyle::Hex, sep: Sep::Space,
-                label: LabelStyle::SameLine, line: LineStyle::PlainLf, comma: 1, payload: 0, leading_blank: false, final_newline: true, indent: false }
+                label: LabelStyle::SameLine, line: LineStyle::PlainLf, comma: 1, payload: 0, leading_blank: false, final_newline: true, indent: false, gap: (0, 1, 0) }
     }
     /// Full product of the 8 primary dimensions: 3*2*3*2*3*3*4*3 = 3888 styles.
     pub const PRIMARY: u64 = 3 * 2 * 3 * 2 * 3 * 3 * 4 * 3;
@@ -102,6 +106,7 @@ impl Style {
     pub const SECONDARY: u64 = 4 * 5 * 2 * 2 * 2;
     pub fn with_secondary(&self, mut i: u64) -> Style {
         let mut s = self.clone();
+        s.gap = GAPS[((i / Self::SECONDARY) as usize).min(GAPS.len() - 1)]; i %= Self::SECONDARY;
         let mut take = |n: u64| { let r = i % n; i /= n; r };
         s.comma = take(4) as u8; s.payload = take(5) as u8; s.leading_blank = take(2) == 1; s.final_newline = take(2) == 0; s.indent = take(2) == 1;
         s
@@ -139,8 +144,10 @@ pub struct Rendered {
 
 pub fn escape_str(s: &str) -> String {
     let mut o = String::new();
-    for c in s.chars() {
+    for (i, c) in s.chars().enumerate() {
         match c {
+            // a TAB may be written raw inside a literal: every second one is (so that both spellings occur, and a literal can be shorter than its printed form)
+            '\t' if i % 2 == 1 => o.push('\t'),
             '\n' => o.push_str("\\n"), '\r' => o.push_str("\\r"), '\t' => o.push_str("\\t"),
             '\\' => o.push_str("\\\\"), '\0' => o.push_str("\\0"), '"' => o.push_str("\\\""),
             c => o.push(c),
@@ -184,6 +191,9 @@ pub fn render(prog: &AProg, style: &Style) -> Rendered {
     if style.leading_blank { r.eol(); r.out.push_str("  "); r.eol(); }
     if style.line == LineStyle::BlankAndCommentLines { r.out.push_str(PAYLOADS[style.payload as usize]); r.eol(); }
     for (si, stmt) in prog.iter().enumerate() {
+        if style.gap.0 > 0 && si as u32 % style.gap.1 == style.gap.2 % style.gap.1 {
+            for k in 0..style.gap.0 { if k % 2 == 0 { r.out.push_str("; gap"); } else if k % 7 == 1 { r.out.push_str("  "); } r.eol(); }
+        }
         if style.indent { r.out.push_str("    "); }
         let mut lspans = vec![];
         for l in &stmt.labels {
